@@ -82,7 +82,7 @@ func c07processPriority(sc *serverConn, f *PriorityFrame) error { return nil }
 func c07Frames(n int) []Frame {
 	var out []Frame
 	for i := 0; i < n; i++ {
-		switch vRange(vName("later.kind", i), 0, 3) {
+		switch vRange(vName("later.kind", i), 0, 4) {
 		case 0:
 			p := []byte{0, 4, 0, 0, byte(i + 1), vU8(vName("later.setting", i))}
 			out = append(out, &SettingsFrame{FrameHeader: FrameHeader{valid: true, Type: FrameSettings, Length: 6}, p: p})
@@ -94,6 +94,10 @@ func c07Frames(n int) []Frame {
 		case 3:
 			out = append(out, &MetaHeadersFrame{HeadersFrame: &HeadersFrame{FrameHeader: FrameHeader{valid: true, Type: FrameHeaders, Flags: FlagHeadersEndHeaders | FlagHeadersEndStream, StreamID: uint32(3 + 2*i)}},
 				Fields: []hpack.HeaderField{{Name: ":path", Value: "/"}, {Name: ":method", Value: "GET"}, {Name: ":scheme", Value: "https"}}})
+		case 4:
+			// the client resets the very request whose handler is rendering: the stream is closed under
+			// the running handler (whatever the server releases or reuses then must not be what it reads)
+			out = append(out, &RSTStreamFrame{FrameHeader: FrameHeader{valid: true, Type: FrameRSTStream, Length: 4, StreamID: 1}, ErrCode: ErrCodeCancel})
 		}
 	}
 	return out
